@@ -291,12 +291,55 @@ def coq_eval_lines(pid, header, case_exprs, tag="cases", per_file=300, timeout=9
 # Running the implementation
 # --------------------------------------------------------------------------
 
+_SRC_HASH = None
+
+
+def repo_source_hash():
+    """Content hash of every .py file of the library under test.  numba's on-disk cache is indexed
+    per DEFINING file: when only a callee's file changes, the cached machine code of its callers in
+    other files (which has the old callee inlined) is still served.  A change to /repo must
+    therefore never meet a cache that was filled from different sources."""
+    global _SRC_HASH
+    if _SRC_HASH is None:
+        h = hashlib.sha256()
+        root = REPO / "distance3d"
+        for f in sorted(root.rglob("*.py")):
+            h.update(str(f.relative_to(root)).encode())
+            h.update(b"\0")
+            h.update(f.read_bytes())
+            h.update(b"\0")
+        _SRC_HASH = h.hexdigest()[:16]
+    return _SRC_HASH
+
+
+def numba_cache_dir(jit=True):
+    base = VERIF / "work" / ("numba_cache" if jit else "numba_cache_nojit")
+    d = base / repo_source_hash()
+    if not d.exists():
+        d.mkdir(parents=True, exist_ok=True)
+        # keep the three most recently used source states, drop older ones (disk space)
+        try:
+            olds = sorted((x for x in base.iterdir() if x.is_dir() and len(x.name) == 16 and x != d),
+                          key=lambda x: x.stat().st_mtime, reverse=True)
+            for x in olds[3:]:
+                import shutil
+                shutil.rmtree(x, ignore_errors=True)
+        except OSError:
+            pass
+    else:
+        try:
+            os.utime(d, None)
+        except OSError:
+            pass
+    return d
+
+
 def impl_env(jit=True):
     env = dict(os.environ)
     env["PYTHONPATH"] = f"{REPO}:{VERIF}"
     env["PYTHONHASHSEED"] = "0"
     env["DISTANCE3D_VERIF"] = "1"
-    env["NUMBA_CACHE_DIR"] = str(VERIF / "work" / ("numba_cache" if jit else "numba_cache_nojit"))
+    env["NUMBA_CACHE_DIR"] = str(numba_cache_dir(jit))
     env["OMP_NUM_THREADS"] = "1"
     env["OPENBLAS_NUM_THREADS"] = "1"
     env["NUMBA_NUM_THREADS"] = "1"
